@@ -12,7 +12,7 @@ from specmc import gen
 
 ID = "C19"
 LEVEL = "model_checking"
-RULE = ("explicit-state breadth-first search from the empty sandbox over histories of commands: generate(doc in {A, B disjoint names, "
+RULE = ("explicit-state breadth-first search from the empty sandbox over histories of commands: generate(doc in {A, B disjoint names, G = A under a title spelled differently with the same derived names, "
         "C hostile schema/operation/tag names, D hostile title}, meta in {none, poetry}, overwrite in {no, yes}, location in "
         "{default-from-title in cwd, --output-path}) and user edits (make an empty directory or one holding only dot entries where --output-path points, an empty one at the default location, add a file at the project root, at the package root, modify a "
         "generated file), also with generate_all_tags and with post hooks that leave a trace, through the real typer CLI; states = full content of the sandbox + flavours generated per directory, "
@@ -79,6 +79,9 @@ for _i, (_p, _item) in enumerate(DOCS["F"]["paths"].items()):
     _item["get"]["tags"] = ["store", "../../../escaped_rel", "/tmp/specmc_c19_escaped_abs/x", "..", "a/b"][: 3 + 2 * _i]
 DOCS["N"] = mk("Same Title", ["Alpha", "Shared"], ["opA", "opShared"], tag="store")
 DOCS["N"]["components"]["schemas"]["Alpha"]["description"] = "caf\u00e9 \u2603 non-ASCII"
+# G: document A under a title that is spelled differently but derives the same project / package names: only the metadata files
+# (README, pyproject description) and the package docstring tell the two apart
+DOCS["G"] = mk("SAME-title!", ["Alpha", "Shared"], ["opA", "opShared"], tag="store")
 USER_FILES = ("USER.txt", "user_mod.py", ".editorconfig")
 HOOK_FILES = ("HOOK_RAN.txt", "HOOK_STAMP")       # what the configured post hooks leave behind: not part of the generated tree
 
@@ -90,6 +93,8 @@ def commands(tier):
         for meta in ("none", "poetry"):
             for ow in (False, True):
                 cmds.append(["gen", d, meta, ow, "default"])
+    for ow in (False, True):
+        cmds.append(["gen", "G", "poetry", ow, "default"])
     for d in ("A", "B"):
         for meta in (("none",) if tier == "quick" else ("none", "poetry")):
             for ow in (False, True):
